@@ -131,7 +131,7 @@ def check_one(chk, rep, repo, cls, eff):
                     scratch.setdefault(r, ev)
     covered = set()
     for sc in scans:
-        check_knn_scan(rep, "", sc, ("attr", ("self",), "subgraph"), allow_self_skip=False)
+        check_knn_scan(rep, "", sc, ("attr", ("self",), "subgraph"), allow_self_skip=False, orientation=False)
         covered |= {sc.D, sc.N}
     for arr, ev in scratch.items():
         rep.ev("NI-scratch", ev, arr in covered,
